@@ -1,0 +1,57 @@
+//go:build verif
+
+// Machine-checked contracts (read by /verif/bin/fsv; comment-only, guarded by the verif tag).
+// C07: the timeout outcome is exclusive, consistent and never early.
+// Two threads share the atomic cell 'result': A = Apply$1 (the caller), B = Apply$1$1 (the timer callback).
+// Rely/guarantee: the cell changes only from nil to a non-nil value, by CompareAndSwap(nil, v); B only ever stores
+// a timeout result (Error == ErrExceeded), A only ever stores the inner result.
+
+package timeout
+
+// The atomic cell is a local of Apply, reachable only from Apply$1 and the timer callback: unknown code cannot
+// touch it; what the other thread does to it is the rely clause.
+//@ confined sync/atomic.Pointer.v
+//@ frozen config.timeLimit, config.onTimeoutExceeded, timeout.config, executor.BaseExecutor, executor.timeout
+
+//@ extfunc github.com/failsafe-go/failsafe-go/policy.ExecutionInternal.CopyForCancellable
+//@   modifies nothing
+//@   ensures result != nil && implements(result, policy.ExecutionInternal)
+//@ extfunc github.com/failsafe-go/failsafe-go/policy.ExecutionInternal.Cancel
+//@   modifies nothing
+
+//@ func (*executor).IsFailure
+//@   ensures [C07.isfailure] result == (err != nil && ufb("errors.Is", err, ErrExceeded))
+//@   modifies nothing
+
+// Thread B: the timer callback. If it wins the race the listener is called once, then the execution is cancelled
+// with the timeout result; if it loses it does nothing at all.
+//@ func (*executor).Apply$1$1
+//@   requires e != nil && e.timeout != nil && e.config != nil && execInternal != nil
+//@   rely result: (newv == oldv) || (oldv == nil && newv != nil)
+//@   let won := ncalls(execInternal.Cancel) == 1
+//@   let tr := cast(arg(execInternal.Cancel, 1, 0), *common.PolicyResult)
+//@   ensures [C07.timer.cancel_at_most_once] ncalls(execInternal.Cancel) <= 1
+//@   ensures [C07.timer.won] won ==> atomval_ptr(result) == tr && tr.Error == ErrExceeded && tr.Done && !tr.Success && (e.onTimeoutExceeded != nil ==> ncalls(e.onTimeoutExceeded) == 1 && tickof(e.onTimeoutExceeded, 1) < tickof(execInternal.Cancel, 1))
+//@   ensures [C07.timer.lost] !won ==> ncalls(e.onTimeoutExceeded) == 0 && atomval_ptr(result) != nil
+//@   ensures [C07.timer.guarantee] old(atomval_ptr(result)) != nil ==> !won
+//@   havoc
+//@   modifies result.v, calls(e.onTimeoutExceeded), calls(execInternal.Cancel)
+
+// Thread A: the caller.
+//@ func (*executor).Apply$1
+//@   dyntype policy.Executor *executor
+//@   inlinecalls (*BaseExecutor).PostExecute
+//@   requires e != nil && e.BaseExecutor != nil && e.timeout != nil && e.config != nil && innerFn != nil && typeis(exec, *failsafe.execution)
+//@   requires typeis(e.Executor, *executor) && asref(e.Executor, *executor) == e
+//@   rely result: (newv == oldv) || (oldv == nil && newv != nil && cast(newv, *common.PolicyResult).Error == ErrExceeded && cast(newv, *common.PolicyResult).Done && !cast(newv, *common.PolicyResult).Success)
+//@   ext inner := cast(ret(innerFn, 1), *common.PolicyResult)
+//@   premise inner != nil
+//@   premise ErrExceeded != nil && ufb("errors.Is", ErrExceeded, ErrExceeded)
+//@   let child := reti(exec.CopyForCancellable, 1)
+//@   ensures [C07.fresh_per_attempt] ncalls(exec.CopyForCancellable) == 1 && ncalls(innerFn) == 1 && arg(innerFn, 1, 0) == child && spawned() == 1 && afterdur() == e.timeLimit && clofn(afterfn()) == fnid("(*executor).Apply$1$1")
+//@   ensures [C07.exclusive] (result.Result == inner.Result && result.Error == inner.Error) || (result.Error == ErrExceeded)
+//@   ensures [C07.timeout_is_failure] result.Error == ErrExceeded ==> !result.Success
+//@   ensures [C07.inner_unchanged] (inner.Error == nil || !ufb("errors.Is", inner.Error, ErrExceeded)) && result.Error != ErrExceeded ==> result.Result == inner.Result && result.Error == inner.Error && result.Success && result.Done && result.SuccessAll == inner.SuccessAll
+//@   ensures [C07.listener_not_from_caller] ncalls(e.onTimeoutExceeded) == 0
+//@   havoc
+//@   modifies calls(innerFn), calls(exec.CopyForCancellable), calls(e.onFailure), calls(e.onSuccess), calls(child.CopyWithResult)
